@@ -123,15 +123,19 @@ func modifyValue(s *slip.Scope, value any, caller slip.Caller, asBag bool, depth
 		bg := flavor.MakeInstance().(*flavors.Instance)
 		bg.Any = value
 		obj := caller.Call(s, slip.List{bg}, depth)
-		if bg, _ := obj.(*flavors.Instance); bg != nil && bg.Type == flavor {
-			return bg.Any
+		if rb, _ := obj.(*flavors.Instance); rb != nil && rb.Type == flavor {
+			if rb == bg {
+				return bg.Any
+			}
+			// Some other bag, it keeps its data to itself.
+			return dupTree(rb.Any)
 		}
 		return slip.Simplify(obj)
 	}
 	obj := slip.SimpleObject(value)
 	obj = caller.Call(s, slip.List{obj}, depth)
 	if bg, _ := obj.(*flavors.Instance); bg != nil && bg.Type == flavor {
-		return bg.Any
+		return dupTree(bg.Any)
 	}
 	return slip.Simplify(obj)
 }
